@@ -12,6 +12,11 @@ INVARIANT SplitNoSep
 INVARIANT CropIsPrefix
 INVARIANT TruncateFits
 INVARIANT AlignExact
+INVARIANT JustifyExact
+INVARIANT FitExact
+INVARIANT BlankCopyEmpty
+INVARIANT SetPlainCodes
+INVARIANT TokensAppend
 INVARIANT SetLengthExact
 INVARIANT NoTabsLeft
 INVARIANT SurvivorsKeepStyle
